@@ -316,6 +316,11 @@ M('F31R', 'src/xdoctest/static_analysis.py', """            for child in node.or
             return""", """            return""", ['C07'], 'F31 repair reverted (1): the else branch of a main guard is skipped')
 M('F31bR', 'src/xdoctest/static_analysis.py', """        return names == ['__name__'] and values == ['__main__']""", """        return names == ['__name__'] and values == ['__main__'] and isinstance(test.left, ast.Name)""", ['C07'], 'F31 repair reverted (2): only the usual order of the main guard is recognised')
 M('F32R', 'src/xdoctest/parser.py', """            if want_lines and (mode_hint in {'eval', 'single'} or wants_traceback):""", """            if want_lines and mode_hint in {'eval', 'single'}:""", ['C03'], 'F32 repair reverted: an earlier exception is credited to a later traceback want')
+M('F33R', 'src/xdoctest/static_analysis.py', """                with tokenize.open(fpath) as file_:
+                    source = file_.read()""", """                with open(fpath, 'rb') as file_:
+                    source = file_.read()""", ['C08'], 'F33 repair reverted: a file that is not utf-8 is handed on as bytes')
+M('F34R', 'src/xdoctest/runner.py', """                    if re.match(r'\\s*from\\s+[\\w.]+\\s+import\\s+\\*', line):""", """                    if ' import *' in line:""", ['C19'], "F34 repair reverted: every line mentioning ' import *' is dropped from the dump")
+M('F35R', 'src/xdoctest/directive.py', """    for match in re.finditer(r',|\\(|\\)|(?<![,\\s])\\s+(?=[+-])', optstr):""", """    for match in re.finditer(r',|\\(|\\)', optstr):""", ['C04', 'C20'], 'F35 repair reverted: options separated by blanks only are one unknown directive')
 M('F17R', 'src/xdoctest/doctest_example.py', """                part_directive = None
                 try:
                     try:
